@@ -37,6 +37,20 @@ def numGI : Num GI Int where
 
 def twoPi : Float := 6.283185307179586
 
+@[instance_reducible] def realLikeFloat : RealLike Float where
+  ofInt := Float.ofInt
+  twoPi := twoPi
+  sqrt := Float.sqrt
+  abs := Float.abs
+
+@[instance_reducible] def cxLikeCF : CxLike CF Float where
+  expI t := ⟨Float.cos t, Float.sin t⟩
+  ofReal x := ⟨x, 0.0⟩
+  conj z := ⟨z.re, -z.im⟩
+  divInt z n := ⟨z.re / Float.ofInt n, z.im / Float.ofInt n⟩
+
+attribute [local instance] realLikeFloat cxLikeCF
+
 def numCF : Num CF Float where
   real j := do pure ⟨← floatOfJson j, 0.0⟩
   opd j := floatOfJson j
@@ -45,7 +59,7 @@ def numCF : Num CF Float where
   imJ z := floatToJson z.im
   one := ⟨1.0, 0.0⟩
   nsq z := ⟨z.re * z.re + z.im * z.im, 0.0⟩
-  ph wl o := let t := twoPi * o / wl; ⟨Float.cos t, Float.sin t⟩
+  ph wl o := planePh wl o        -- the model's definition at Float: exp(i * (2 pi * opd / wavelength))
 
 variable {K Rr : Type}
 
